@@ -122,10 +122,15 @@ def parse_diagnostics(stderr):
     return out
 
 
+# Z3 search heuristics only (no effect on soundness): eager datatype case splits keep the control-flow heavy query of
+# factor_impl (14 early returns over Option/tuple/enum matches) at ~1 s instead of > 180 s
+SMT_OPTIONS = ['--smt-option', 'smt.dt_lazy_splits=0']
+
+
 def run_verus(ws, modules=None, rlimit=None, threads=8, extra=None, timeout=3600):
     dd, ext = deps_dir(ws.repo)
     cmd = ['verus', 'src/lib.rs', '--crate-type=lib', '--crate-name', 'yamaquasi', '--edition', '2021',
-           '-L', 'dependency=' + dd] + ext + ['--output-json', '--time-expanded', '--triggers-mode', 'silent', '--multiple-errors', '12', '--num-threads', str(threads)]
+           '-L', 'dependency=' + dd] + ext + ['--output-json', '--time-expanded', '--triggers-mode', 'silent', '--multiple-errors', '12', '--num-threads', str(threads)] + SMT_OPTIONS
     if rlimit:
         cmd += ['--rlimit', str(rlimit)]
     for m in modules or []:
